@@ -116,6 +116,7 @@ type Engine struct {
 	topRets     []retRec
 	tmplFuncs   map[int]*Term
 	callHist    map[string]*Term
+	callCount   map[string]int
 	caseSuffix  string
 	inputs      []*inputNode
 	byteRefs    map[int]bool
@@ -143,6 +144,7 @@ func newEngine(prog *ssa.Program, fset *token.FileSet) *Engine {
 	e.declComp(allocComp, IntS)
 	e.tmplFuncs = map[int]*Term{}
 	e.callHist = map[string]*Term{}
+	e.callCount = map[string]int{}
 	e.pureConst = map[int]*Term{}
 	// ghost globals are declared up front: a modifies clause naming one must
 	// havoc it even when nothing has read it yet
